@@ -33,7 +33,7 @@ var exprAlphabet = []string{"(", ")", "[", "]", ".", "..", "@", ",", "::", "/", 
 	// a quote that opens a literal which never ends (as the last token: nothing at all follows it)
 	"'", "\""}
 
-var lrAlphabet = []string{"/", "..", "[", "]", "=", "(", ")", "current", "a", "p:b", "xmlfoo", "u:b", ".", "*", "'s'", "1"}
+var lrAlphabet = []string{"/", "..", "[", "]", "=", "(", ")", "current", "a", "p:b", "xmlfoo", "u:b", ".", "*", "'s'", "1", "p:*", ":"}
 
 func wordy(s string) bool {
 	c := s[len(s)-1]
